@@ -164,9 +164,12 @@ impl Variant {
                 let int_value = self.string_value.parse::<i64>();
                 match int_value {
                     Ok(i) => i,
-                    _ => match parse_filesize(&self.string_value) {
-                        Some(size) => size as i64,
-                        _ => 0,
+                    _ => match self.string_value.parse::<f64>() {
+                        Ok(f) => f as i64,
+                        _ => match parse_filesize(&self.string_value) {
+                            Some(size) => size as i64,
+                            _ => 0,
+                        },
                     },
                 }
             }
